@@ -906,7 +906,7 @@ theorem echo1_safe (d : Bytes) : Safe (echo1 d) := by
   · rw [if_pos h]; exact Safe.throw _ rfl
   · rw [if_neg h]; exact Safe.bind (Safe.idx (by omega)) fun _ _ => Safe.pure _
 
-theorem Safe.ite_throw_bind {α β : Type} {c : Prop} [Decidable c] {e : PyErr} {f : α → Py β} {k : Py β} (he : e.documented = true) (hk : Safe k) :
+theorem Safe.ite_throw_bind {α β : Type} {c : Prop} [Decidable c] {e : PyErr} {f : α → Py β} {k : Py β} (he : e.ofReply = true) (hk : Safe k) :
     Safe (if c then ((throw e : Py α) >>= f) else k) := by
   by_cases h : c
   · rw [if_pos h]; intro e' h'; simp [bind, Except.bind, throw, throwThe, MonadExceptOf.throw] at h'; subst h'; exact he
@@ -1005,7 +1005,7 @@ theorem call_documented (cfg : CallCfg) (st : ClientState) (e : Entry) (arr : Li
     | resp resp =>
       simp only []
       cases hp : e.post cfg.std resp.data with
-      | error err => simp only []; exact Or.inl (post_safe cfg.std e resp.data hstd hlevel err hp)
+      | error err => simp only []; exact Or.inl ((post_safe cfg.std e resp.data hstd hlevel).documented err hp)
       | ok t => simp
 
 example : (callInner { send := ⟨none, 1000, 5000, false⟩ } {} .testerPresent [⟨3, [0x7F, 0x3E]⟩]).inner =
@@ -1073,7 +1073,7 @@ theorem callWith_documented {α : Type} (cfg : SendCfg) (st : ClientState) (req 
     simp only []
     cases hq : post r.data with
     | ok v => simp [CallOut.Documented]
-    | error e => simp only [CallOut.Documented]; exact hpost r.data e hq
+    | error e => simp only [CallOut.Documented]; exact (hpost r.data).documented e hq
 
 /-! the families: the request is whatever the family's builder returned; the interpretation is the family's client-side check -/
 
